@@ -290,6 +290,11 @@ func runC05(r *run) {
 				attrs: g.genAttrs(1+g.intn(4), 2, true, true), tagW: 3, minW: 36, name: "other"}
 			encRun(r, "C05", noise)
 		}
+		if i%1024 == 21 {
+			// a record far longer than any line buffer
+			big := strings.Repeat("0123456789abcdefghijklmnopqrstuvwxyz", 1900+i/1024)
+			c.attrs = append(c.attrs, gattr{key: "zzbig", val: gval{kind: "string", goVal: big, tok: "S:" + hxs(big), text: big}})
+		}
 		if i%10 == 4 {
 			encPanicNoise([]string{"c", "l", "j"}[(i/10)%3])
 		}
